@@ -13,6 +13,10 @@ CHECKS = {
    technique="TLA+ spec Hierarchy.tla (stack machine Impl + recursive-descent Ref) model-checked by TLC over all small hierarchies x unit sequences; TLC-emitted cases replayed on flatfile.HierarchyReader, csv2, fixedlength2 and edi; recorded runs on random larger hierarchies validated by TLC (Trace_Hierarchy.tla)",
    text="TLC checks for every well-formed hierarchy with <=2 (quick) / <=3 (thorough) declarations and every unit sequence of <=3/4 units over declared and undeclared names that the stack machine transcribed from hierarchyReader.go/edi reader.go delivers exactly the instances of the documented greedy recursive-descent matcher, ends with the same terminal class, never consumes a unit twice, never drops one and never reaches a panic guard. Every such case (51,840 quick; ~400k thorough, N=3 sampled 1/25) is replayed on four real implementations with terminated/unterminated/blank-line/non-UTF-8 input variants; random hierarchies up to 8 declarations and 40 units are checked by TLC evaluating the reference matcher on the recorded case.",
    note="Trusted: TLC; the concretiser (unit index carried in a column/element named u); units are single-line, name-matched. Bounded: exhaustive only at N<=3, sampled beyond."),
+ "C12": dict(cat="model_checking", design="5/C12",
+   technique="TLA+ spec IDR.tla (node arena, AddChild, 4-case unlink, recycle/reset, pool, ID counter) model-checked by TLC over all reachable arenas; operation words executed on the real idr package and every step trace-validated by TLC with the full pointer structure; reader-produced trees dumped and checked by TLC; pool ownership via verif hook",
+   text="TLC explores every reachable configuration of a 4-cell (thorough: 5-cell) arena under all interleavings of CreateNode/AddChild/RemoveAndReleaseTree, pooling on and off, and checks link consistency, acyclicity, blank pooled cells, no dangling references and ID distinctness in each. The code is bound by executing every legal operation word (<=5/6 ops) plus random long words on the real package and having TLC accept each step only if the real pointer structure equals the specified one; trees handed out by all seven readers are dumped after every Read and checked by the same structural predicate; get/put hook events check single ownership, blankness and ID uniqueness of every acquisition.",
+   note="Trusted: TLC, sync.Pool's own hand-out discipline, the harness's pointer numbering. Racing acquisitions are covered by C14's driver, not here."),
 }
 
 def main():
